@@ -863,3 +863,52 @@ Theorem cutoff_conflict_refuted :
 Proof.
   exists w3_AB, w3_BA, w2_iso. eexists. repeat (split; [vm_compute; reflexivity|]). vm_compute. reflexivity.
 Qed.
+
+(** ------------------------------------------------------------------ ground truth -> stored class *)
+Lemma tok_of_is_tok u wb : is_tok (tok_of u wb) = true.
+Proof. unfold tok_of. destruct (xorb u wb); reflexivity. Qed.
+Lemma up_tok_of u wb : up wb (tok_of u wb) = u.
+Proof. unfold up, tok_of. destruct u, wb; reflexivity. Qed.
+Lemma pyval_eqb_eq : forall a b, pyval_eqb a b = true -> is_tok b = true -> a = b.
+Proof.
+  intros a b E T. destruct (is_tok_cases _ T) as [-> | ->]; destruct a; try discriminate; cbn in E; apply str_eqb_eq in E; now subst.
+Qed.
+Lemma sub_ok_tok ms x : sub_ok ms x = true -> exists m, sub_mark ms x = Some m /\ s_tok x = tok_of (m_up m) (m_wb m).
+Proof.
+  unfold sub_ok. destruct (sub_mark ms x) as [m|]; [|discriminate]. intros E. exists m. split; [reflexivity|].
+  apply pyval_eqb_eq; [exact E|apply tok_of_is_tok].
+Qed.
+(** for a pair whose two ends carry the tokens their marks write, the stored class is the generator's ground truth
+    ("same side" = cis) exactly when the table's assumptions hold, and its negation otherwise *)
+Theorem class_predicted ms x y mx my : s_lig x <> s_anc x ->
+  sub_mark ms x = Some mx -> sub_mark ms y = Some my ->
+  s_tok x = tok_of (m_up mx) (m_wb mx) -> s_tok y = tok_of (m_up my) (m_wb my) ->
+  pair_result (x, y) = Some (class_val (predicted_cis mx my)).
+Proof.
+  intros N Fx Fy Tx Ty. unfold pair_result. cbn [fst snd].
+  rewrite interpret_table; [|exact N|rewrite Tx; apply tok_of_is_tok|rewrite Ty; apply tok_of_is_tok].
+  f_equal. rewrite (table_vs_geom _ (m_wb mx) (m_wb my)) by (rewrite ?Tx, ?Ty; apply tok_of_is_tok).
+  unfold predicted_cis. apply find_some in Fx. destruct Fx as [_ Fx]. apply andb_true_iff in Fx. destruct Fx as [Fl Fa].
+  apply Z.eqb_eq in Fl. apply Z.eqb_eq in Fa. rewrite Fl, Fa.
+  unfold geom_cis. rewrite Tx, Ty, !up_tok_of. reflexivity.
+Qed.
+(** the `unambiguous` predicate on the molecule the step receives: then EVERY tuple the step adds carries the predicted class *)
+Theorem marks_ok_predicts g g' ms : wf_graph g -> marks_ok g ms = true -> annotate_ez_isomers_cgsmiles g = Ok g' ->
+  forall k v, is_new g g' k v ->
+  exists x y mx my, sub_mark ms x = Some mx /\ sub_mark ms y = Some my /\
+    (v = ez_tuple (s_lig x) (s_anc x) (s_anc y) (s_lig y) (class_val (predicted_cis mx my)) \/
+     v = ez_tuple (s_lig y) (s_anc y) (s_anc x) (s_lig x) (class_val (predicted_cis mx my))).
+Proof.
+  intros W M H k v [I NI]. destruct (annotate_cg_inv _ _ H) as [ps [apps [H1 [H2 [H3 H4]]]]].
+  rewrite H4 in I. destruct (apply_appends_in _ _ _ _ I) as [Old|New]; [contradiction|].
+  destruct (appends_of_in _ _ _ _ H2 New) as [x [y [c [Ip [Hc Hkv]]]]].
+  unfold marks_ok in M. rewrite H1 in M. rewrite forallb_forall in M. specialize (M _ Ip). cbn [fst snd] in M.
+  apply andb_true_iff in M. destruct M as [Mx My].
+  destruct (sub_ok_tok _ _ Mx) as [mx [Fx Tx]]. destruct (sub_ok_tok _ _ My) as [my [Fy Ty]].
+  assert (N : s_lig x <> s_anc x).
+  { destruct (pair_path _ _ _ _ _ W H1 Ip) as [P _]. unfold path_ok in P. repeat (apply andb_true_iff in P; destruct P as [P ?]).
+    intros E. rewrite E, Z.eqb_refl in *. discriminate. }
+  pose proof (class_predicted ms x y mx my N Fx Fy Tx Ty) as R. unfold pair_result in R. cbn [fst snd] in R.
+  rewrite Hc in R. inversion R; subst c.
+  exists x, y, mx, my. split; [exact Fx|]. split; [exact Fy|]. destruct Hkv as [[_ ->]|[_ ->]]; auto.
+Qed.
